@@ -11,6 +11,7 @@ import (
 	"database/sql"
 	"database/sql/driver"
 	"errors"
+	"strings"
 	"sync"
 
 	sqlite3 "github.com/mattn/go-sqlite3"
@@ -59,6 +60,77 @@ func (c *verifFaultCtl) event(kind string) error {
 	return nil
 }
 
+// ---------------------------------------------------------------- standing outages
+// Besides the one-shot "k-th statement fails", a database FILE can be put into a standing outage:
+// every READ of it fails at a chosen stage (prepare / query / scan of the row), as a primary that
+// fails fast does; with writes = false every other statement fails too.  Stages:
+//
+//	prepare: Prepare of a SELECT fails (writes = false: every Prepare, Begin, Query, Exec)
+//	query:   running a prepared SELECT fails (writes = false: also every Exec / Query)
+//	scan:    fetching a row of a prepared SELECT fails (writes = false: also every Exec and
+//	         every other row fetch)
+//
+// Standing failures are not numbered by the one-shot counter.
+type verifOutageCtl struct {
+	mu     sync.Mutex
+	file   string
+	stage  string // "" = none
+	writes bool
+	fired  int
+}
+
+var verifOutage verifOutageCtl
+
+func (c *verifOutageCtl) set(file, stage string, writes bool) {
+	c.mu.Lock()
+	c.file, c.stage, c.writes, c.fired = file, stage, writes, 0
+	c.mu.Unlock()
+}
+
+func (c *verifOutageCtl) clear() { c.set("", "", true) }
+
+func verifIsSelect(q string) bool {
+	q = strings.TrimSpace(q)
+	return len(q) >= 6 && strings.EqualFold(q[:6], "select")
+}
+
+// does the event fail?  read = the event belongs to a prepared SELECT
+func (c *verifOutageCtl) fails(file, event string, read bool) error {
+	c.mu.Lock()
+	defer c.mu.Unlock()
+	if c.stage == "" || file != c.file {
+		return nil
+	}
+	hit := false
+	switch c.stage {
+	case "prepare":
+		if c.writes {
+			hit = event == "prepare" && read
+		} else {
+			hit = event == "prepare" || event == "begin" || event == "query" || event == "exec"
+		}
+	case "query":
+		if c.writes {
+			hit = event == "stmt-query" && read
+		} else {
+			hit = event == "stmt-query" || event == "stmt-exec" || event == "query" || event == "exec"
+		}
+	case "scan":
+		if c.writes {
+			hit = event == "next" && read
+		} else {
+			hit = event == "next" || event == "stmt-exec" || event == "exec"
+		}
+	}
+	if hit {
+		c.fired++
+		return errVerifOutage
+	}
+	return nil
+}
+
+var errVerifOutage = errors.New("verif: primary unreachable (standing outage)")
+
 type verifFaultDriver struct{ base sqlite3.SQLiteDriver }
 
 func (d *verifFaultDriver) Open(dsn string) (driver.Conn, error) {
@@ -66,20 +138,29 @@ func (d *verifFaultDriver) Open(dsn string) (driver.Conn, error) {
 	if err != nil {
 		return nil, err
 	}
-	return &vfConn{c.(*sqlite3.SQLiteConn)}, nil
+	return &vfConn{c.(*sqlite3.SQLiteConn), dsn}, nil
 }
 
-type vfConn struct{ c *sqlite3.SQLiteConn }
+type vfConn struct {
+	c   *sqlite3.SQLiteConn
+	dsn string
+}
 
 func (c *vfConn) Prepare(q string) (driver.Stmt, error) {
 	return c.PrepareContext(context.Background(), q)
 }
-func (c *vfConn) Close() error              { return c.c.Close() }
-func (c *vfConn) Begin() (driver.Tx, error) { return c.BeginTx(context.Background(), driver.TxOptions{}) }
+func (c *vfConn) Close() error { return c.c.Close() }
+func (c *vfConn) Begin() (driver.Tx, error) {
+	return c.BeginTx(context.Background(), driver.TxOptions{})
+}
 func (c *vfConn) Ping(ctx context.Context) error {
 	return c.c.Ping(ctx)
 }
 func (c *vfConn) PrepareContext(ctx context.Context, q string) (driver.Stmt, error) {
+	read := verifIsSelect(q)
+	if err := verifOutage.fails(c.dsn, "prepare", read); err != nil {
+		return nil, err
+	}
 	if err := verifFault.event("prepare"); err != nil {
 		return nil, err
 	}
@@ -87,9 +168,12 @@ func (c *vfConn) PrepareContext(ctx context.Context, q string) (driver.Stmt, err
 	if err != nil {
 		return nil, err
 	}
-	return &vfStmt{s.(*sqlite3.SQLiteStmt)}, nil
+	return &vfStmt{s.(*sqlite3.SQLiteStmt), c.dsn, read}, nil
 }
 func (c *vfConn) BeginTx(ctx context.Context, opts driver.TxOptions) (driver.Tx, error) {
+	if err := verifOutage.fails(c.dsn, "begin", false); err != nil {
+		return nil, err
+	}
 	if err := verifFault.event("begin"); err != nil {
 		return nil, err
 	}
@@ -100,12 +184,18 @@ func (c *vfConn) BeginTx(ctx context.Context, opts driver.TxOptions) (driver.Tx,
 	return &vfTx{tx}, nil
 }
 func (c *vfConn) ExecContext(ctx context.Context, q string, args []driver.NamedValue) (driver.Result, error) {
+	if err := verifOutage.fails(c.dsn, "exec", false); err != nil {
+		return nil, err
+	}
 	if err := verifFault.event("exec"); err != nil {
 		return nil, err
 	}
 	return c.c.ExecContext(ctx, q, args)
 }
 func (c *vfConn) QueryContext(ctx context.Context, q string, args []driver.NamedValue) (driver.Rows, error) {
+	if err := verifOutage.fails(c.dsn, "query", false); err != nil {
+		return nil, err
+	}
 	if err := verifFault.event("query"); err != nil {
 		return nil, err
 	}
@@ -113,7 +203,7 @@ func (c *vfConn) QueryContext(ctx context.Context, q string, args []driver.Named
 	if err != nil {
 		return nil, err
 	}
-	return &vfRows{r}, nil
+	return &vfRows{r, c.dsn, false}, nil
 }
 
 type vfTx struct{ tx driver.Tx }
@@ -130,7 +220,11 @@ func (t *vfTx) Commit() error {
 }
 func (t *vfTx) Rollback() error { return t.tx.Rollback() }
 
-type vfStmt struct{ s *sqlite3.SQLiteStmt }
+type vfStmt struct {
+	s    *sqlite3.SQLiteStmt
+	dsn  string
+	read bool
+}
 
 func (s *vfStmt) Close() error  { return s.s.Close() }
 func (s *vfStmt) NumInput() int { return s.s.NumInput() }
@@ -141,12 +235,18 @@ func (s *vfStmt) Query(args []driver.Value) (driver.Rows, error) {
 	return nil, errors.New("verif: legacy Query not used")
 }
 func (s *vfStmt) ExecContext(ctx context.Context, args []driver.NamedValue) (driver.Result, error) {
+	if err := verifOutage.fails(s.dsn, "stmt-exec", false); err != nil {
+		return nil, err
+	}
 	if err := verifFault.event("stmt-exec"); err != nil {
 		return nil, err
 	}
 	return s.s.ExecContext(ctx, args)
 }
 func (s *vfStmt) QueryContext(ctx context.Context, args []driver.NamedValue) (driver.Rows, error) {
+	if err := verifOutage.fails(s.dsn, "stmt-query", s.read); err != nil {
+		return nil, err
+	}
 	if err := verifFault.event("stmt-query"); err != nil {
 		return nil, err
 	}
@@ -154,14 +254,21 @@ func (s *vfStmt) QueryContext(ctx context.Context, args []driver.NamedValue) (dr
 	if err != nil {
 		return nil, err
 	}
-	return &vfRows{r}, nil
+	return &vfRows{r, s.dsn, s.read}, nil
 }
 
-type vfRows struct{ r driver.Rows }
+type vfRows struct {
+	r    driver.Rows
+	dsn  string
+	read bool
+}
 
 func (r *vfRows) Columns() []string { return r.r.Columns() }
 func (r *vfRows) Close() error      { return r.r.Close() }
 func (r *vfRows) Next(dest []driver.Value) error {
+	if err := verifOutage.fails(r.dsn, "next", r.read); err != nil {
+		return err
+	}
 	if err := verifFault.event("next"); err != nil {
 		return err
 	}
